@@ -48,28 +48,27 @@ GSoft(c) == /\ SoftResetRpki(c, QSoftReset(ms[c])) /\ Log([ev |-> "SoftResetRpki
 GEnable(c) == /\ EnableRpki(c, QEnable(ms[c])) /\ Log([ev |-> "EnableRpki", c |-> c]) /\ Keep
 
 GResp(c) == /\ CanResp(c)
-            /\ LET f == Head(ps[c].cq) = "reset"
-                   sid == IF ~f THEN ps[c].psid
-                          ELSE IF Clean /\ (ps[c].hi \cup tbl[c]) # {} /\ ps[c].psid # 0
-                               THEN CHOOSE s \in Sids : s # ps[c].psid
-                          ELSE RandomElement(Sids)
-               IN /\ rsid' = [rsid EXCEPT ![c] = sid]
+            /\ \E sid \in {IF Head(ps[c].cq) # "reset" THEN ps[c].psid
+                            ELSE IF Clean /\ (ps[c].hi \cup tbl[c]) # {} /\ ps[c].psid # 0
+                                 THEN CHOOSE s \in Sids : s # ps[c].psid
+                            ELSE RandomElement(Sids)} :
+                  /\ rsid' = [rsid EXCEPT ![c] = sid]
                   /\ Log([ev |-> "Resp", c |-> c, sid |-> sid])
             /\ Resp(c) /\ UNCHANGED pool
 GAnn(c) == /\ InResp(c)
-           /\ LET r == RandomElement(pool) IN Pfx(c, TRUE, r) /\ Log([ev |-> "Pfx", c |-> c, ann |-> TRUE, r |-> r])
+           /\ \E r \in {RandomElement(pool)} : Pfx(c, TRUE, r) /\ Log([ev |-> "Pfx", c |-> c, ann |-> TRUE, r |-> r])
            /\ Keep
 GWd(c) == /\ InResp(c)
           /\ LET cand == IF Clean THEN pool \ ps[c].ann ELSE pool IN
                /\ cand # {}
-               /\ LET r == RandomElement(cand) IN Pfx(c, FALSE, r) /\ Log([ev |-> "Pfx", c |-> c, ann |-> FALSE, r |-> r])
+               /\ \E r \in {RandomElement(cand)} : Pfx(c, FALSE, r) /\ Log([ev |-> "Pfx", c |-> c, ann |-> FALSE, r |-> r])
           /\ Keep
 GEod(c) == /\ InResp(c)
-           /\ LET sn == RandomElement(1..3) IN
+           /\ \E sn \in {RandomElement(1..3)} :
                 Eod(c, rsid[c], sn) /\ Log([ev |-> "Eod", c |-> c, sid |-> rsid[c], sn |-> sn])
            /\ Keep
 GNotify(c) == /\ IdleConn(c)
-              /\ LET sn == RandomElement(0..4) IN
+              /\ \E sn \in {RandomElement(0..4)} :
                    Notify(c, sn, QNotify(ms[c], sn)) /\ Log([ev |-> "Notify", c |-> c, sid |-> ps[c].psid, sn |-> sn])
               /\ Keep
 GCacheReset(c) == /\ IdleConn(c) /\ (IF ps[c].cq = <<>> THEN TRUE ELSE Head(ps[c].cq) = "serial")
